@@ -391,6 +391,13 @@ func splitPeriod(mpd *m.MPD, a *asset, cfg *ResponseConfig, wTimes wrapTimes) er
 		return fmt.Errorf("period duration %ds not a multiple of segment duration %dms", periodDur, a.SegmentDurMS)
 	}
 
+	if refRep := a.refRep; refRep != nil && len(refRep.Segments) > 0 {
+		// The reference (video) track decides the segment grid that period boundaries must follow
+		avgSegDur := refRep.duration() / len(refRep.Segments)
+		if avgSegDur > 0 && periodDur*refRep.MediaTimescale%avgSegDur != 0 {
+			return fmt.Errorf("period duration %ds not a multiple of segment duration %d/%d s", periodDur, avgSegDur, refRep.MediaTimescale)
+		}
+	}
 	startPeriodNr := wTimes.startTimeMS / (periodDur * 1000)
 	endPeriodNr := wTimes.nowMS / (periodDur * 1000)
 	inPeriod := mpd.Periods[0]
